@@ -9,3 +9,7 @@ for d in otlptrace/otlptracegrpc otlpmetric/otlpmetricgrpc otlplog/otlploggrpc; 
   dst=contracts/go.opentelemetry.io/otel/exporters/otlp/$d
   mkdir -p $dst && sed "s/PKGNAME/$(basename $d)/" templates/grpcclient.contract > $dst/verif_contracts.go
 done
+for d in otlplog/otlploghttp otlplog/otlploggrpc; do
+  dst=contracts/go.opentelemetry.io/otel/exporters/otlp/$d/internal/transform
+  mkdir -p $dst && cp templates/logtransform.contract $dst/verif_contracts.go
+done
